@@ -524,3 +524,85 @@ Proof.
   split; [exact onset_new_weight_stale|]. split; [exact F_mix_fails_old_weight | exact F_mix_fails_new_weight].
 Qed.
 Print Assumptions C01_weighted_examples.
+
+(** * n-d values: per-individual values with a trailing shape, [revert(subset, right_broadcasting)] both ways, multi-parent
+      entry-wise functions of plain and of WEIGHTED parents (State/StateNdExec.v, StateNdFmixProofs.v)
+
+    [nval] = nested lists of exact atoms, plain or weighted (any non-negative weights, [weight=None]); [nsem] = [State.put] +
+    [_select] restricted to the documented contract (one mask entry per index of the axis the mask is aligned on).  Tie: the toy
+    histories on graphs whose per-individual variables have shape (n, 2), (n, 3), (n, 1), (n, 2, 2) — scoped blocks included —
+    are run through [step] at [nsem] inside Coq on every run ([check_ncase_with], [check_nscase_with]). *)
+From Leaspy Require Import State.StateNdExec State.StateNdExecProofs State.StateNdFmixProofs.
+
+(** [F_mix] PROVED for every toy graph whose per-individual derived nodes are entry-wise: affine maps of ANY number of parents,
+    log2, the weighted one-parent maps, the two-parent map of weighted parents — for both alignments of the mask and any
+    trailing shape.  No hypothesis on node functions is left for the toy vocabulary. *)
+Theorem C01_F_mix_nd :
+  forall l : list dspec, entrywise_axis_b l = true -> F_mix (mk_ngraph l) nsem.
+Proof. exact F_mix_entrywise_nd. Qed.
+Print Assumptions C01_F_mix_nd.
+
+Theorem C01_never_stale_nd :
+  forall l : list dspec,
+  gwf_b (mk_ngraph l) = true -> entrywise_axis_b l = true ->
+  forall ops, MaskDisciplined (mk_ngraph l) nsem (init_store (mk_ngraph l)) ops ->
+  forall k i st,
+    nth_error (fst (run_now (mk_ngraph l) nsem (init_store (mk_ngraph l)) ops)) k = Some st ->
+    snd (step_now (mk_ngraph l) nsem (fst (run_now (mk_ngraph l) nsem (init_store (mk_ngraph l)) ops)) (Get k i)) =
+      match scratch (mk_ngraph l) (values st) i with Some v => Ok v | None => Err InputError end.
+Proof. exact never_stale_nd. Qed.
+Print Assumptions C01_never_stale_nd.
+
+(** non-vacuity: (3, 2) values, a weight computed from the variable, a two-parent function of weighted parents, a two-parent affine
+    map; individuals 1 and 2 rejected, then column 0 rejected ([right_broadcasting=False]): both histories meet the precondition and
+    every read afterwards is the from-scratch value; with the weight of one side kept for all rows the same history reads stale
+    values; the mask aligned on the wrong side reverts individuals where the code refuses the call *)
+Local Open Scope Z_scope.
+Theorem C01_nd_examples :
+  gwf_b (mk_ngraph nd_nodes) = true /\ entrywise_axis_b nd_nodes = true /\
+  (* individuals 1 and 2 rejected (right-broadcasting), then columns: column 0 rejected (right_broadcasting=False) *)
+  MaskDisciplined (mk_ngraph nd_nodes) nsem (init_store (mk_ngraph nd_nodes)) (nd_ops (true, [false; true; true])) /\
+  MaskDisciplined (mk_ngraph nd_nodes) nsem (init_store (mk_ngraph nd_nodes)) (nd_ops (false, [true; false])) /\
+  nread_of (mk_ngraph nd_nodes) nsem true (nd_ops (true, [false; true; true])) 0 1
+    = Ok (NW (mat [[5;1];[2;7];[4;0]]) (Some (mat [[1;0];[0;1];[1;0]]))) /\
+  nread_of (mk_ngraph nd_nodes) nsem true (nd_ops (false, [true; false])) 0 1
+    = Ok (NW (mat [[1;1];[2;3];[4;3]]) (Some (mat [[0;0];[0;1];[1;1]]))) /\
+  all_fresh nsem (nd_ops (true, [false; true; true])) = true /\ all_fresh nsem (nd_ops (false, [true; false])) = true /\
+  (* the two rules that are NOT the code leave stale reads on the same histories *)
+  all_fresh nsem_old_weight (nd_ops (true, [false; true; true])) = false /\
+  nread_of (mk_ngraph nd_nodes) nsem_old_weight true (nd_ops (true, [false; true; true])) 0 1
+    = Ok (NW (mat [[5;1];[2;7];[4;0]]) (Some (mat [[0;1];[0;1];[1;0]]))) /\
+  (* a mask of length 3 with right_broadcasting=False against (3, 2) values: refused (x keeps the proposal); the rule that aligns the
+     mask on the wrong side accepts it and reverts individuals 0 and 2 *)
+  nread_of (mk_ngraph nd_nodes) nsem true (nd_ops (false, [true; false; true])) 0 0 = Ok (NP (mat [[5;1];[6;3];[4;3]])) /\
+  nread_of (mk_ngraph nd_nodes) nsem_wrong_side true (nd_ops (false, [true; false; true])) 0 0 = Ok (NP (mat [[1;5];[6;3];[4;0]])).
+Proof. exact nd_examples. Qed.
+Local Close Scope Z_scope.
+Print Assumptions C01_nd_examples.
+
+(** histories with scoped blocks on n-d graphs of the entry-wise class: in every store the execution goes through (inside a block, after an
+    exception left a block, at the end) a read that returns a value returns the from-scratch evaluation — no hypothesis on node functions *)
+Theorem C01_never_stale_scoped_nd :
+  forall l : list dspec,
+  gwf_b (mk_ngraph l) = true -> entrywise_axis_b l = true ->
+  forall h, SMaskDisciplined (mk_ngraph l) nsem (init_store (mk_ngraph l)) h ->
+  forall s', In s' (visits (mk_ngraph l) nsem true (init_store (mk_ngraph l)) h) ->
+  forall k i st v, nth_error s' k = Some st ->
+    snd (step_now (mk_ngraph l) nsem s' (Get k i)) = Ok v -> scratch (mk_ngraph l) (values st) i = Some v.
+Proof. exact never_stale_scoped_nd. Qed.
+Print Assumptions C01_never_stale_scoped_nd.
+
+(** non-vacuity: (3, 2) values; a fork pending; [with auto_fork(None)]: a read, the assignment of a non-settable variable raises and leaves
+    the block (the next assignment is skipped); REF again: a forked proposal, a read, individuals 1 and 2 rejected — the history meets the
+    precondition, flattens to the plain history shown and every read after it is the from-scratch value *)
+Local Open Scope Z_scope.
+Theorem C01_nd_scoped_example :
+  SMaskDisciplined (mk_ngraph nd_nodes) nsem (init_store (mk_ngraph nd_nodes)) nd_scoped_ops /\
+  hflat (mk_ngraph nd_nodes) nsem true (init_store (mk_ngraph nd_nodes)) nd_scoped_ops =
+    [ SetMode 0 (Some REF); Set_ 0 0 (Some (NP (mat [[1;5];[2;7];[4;0]]))); Get 0 5;
+      SetMode 0 None; Get 0 6; Set_ 0 5 (Some (NP (T0 (AFin 1)))); SetMode 0 (Some REF);
+      Put 0 0 None (NP (mat [[4;-4];[4;-4];[0;3]])) true; Get 0 5; RevertMask 0 (true, [false; true; true]) ] /\
+  all_fresh nsem (hflat (mk_ngraph nd_nodes) nsem true (init_store (mk_ngraph nd_nodes)) nd_scoped_ops) = true.
+Proof. exact nd_scoped_example. Qed.
+Local Close Scope Z_scope.
+Print Assumptions C01_nd_scoped_example.
